@@ -8,6 +8,8 @@ import Halo.Props.C03W
 import Halo.Props.C13W
 import Halo.Props.C16W
 import Halo.Props.C20
+import Halo.Props.C03G
+import Halo.Props.C20W
 
 namespace Halo.Props.Examples
 open Halo
@@ -290,6 +292,17 @@ theorem create_ok : ∃ w' out,
   refine ⟨w', out, h, Halo.Props.C16W.regOK_step regOK_w0 rawOK_w0 ?_ ?_ h⟩
   · intro s p f m h; cases h
   · intro s f a0 a1 req c np nl h; exact (freshOK_create s f a0 a1 req c np nl h).1
+
+/-- the hypotheses of the genesis theorem `C03G.created_pair_inv` are met by that creation: the owner (account 0) is an
+external actor, the addresses 15 / 16 are fresh and allocated as the environment does, and the creation succeeds — so
+the new pair satisfies `PairInv` with zero supply -/
+theorem create_establishes_inv : ∃ w', PairInv w' 15 (.token 9) (.native 0) 16 ∧ supply w' 16 = 0 := by
+  obtain ⟨w', out, h⟩ := exists_pair_of_isOk
+    (x := exec name0 w0 (.factory 0 [] (.createPair (.token 9) (.native 0) noReq none 15 16))) (by decide +kernel)
+  have hv : ValidOp w0 (.factory 0 [] (.createPair (.token 9) (.native 0) noReq none 15 16)) :=
+    { actor := isActor_0, fresh := freshOK_create, coins := by decide }
+  have hn : NewAddrs w0 15 16 := { ne := by decide, pairFree := rfl, npNotRouter := by decide, nlNotRouter := by decide }
+  exact ⟨w', Halo.Props.C03G.created_pair_inv hv hn h⟩
 
 /-! ### 3. a direct swap on pair 11 -/
 
